@@ -143,7 +143,7 @@ def eval_script(args):
                 if p2 != p1:
                     import difflib
                     r['fails'].append({'pred': 'not-idempotent',
-                                       'reorder_only': sorted(p1.split('\n')) == sorted(p2.split('\n')),
+                                       'reorder_only': sorted(l.rstrip(';') for l in p1.split('\n') if l.strip()) == sorted(l.rstrip(';') for l in p2.split('\n') if l.strip()),
                                        'has_hr': 'hierarchical ruleset' in p1,
                                        'diff': [l for l in difflib.unified_diff(p1.split('\n'), p2.split('\n'), lineterm='', n=0)][:10]})
             except tc.Timeout:
